@@ -340,11 +340,11 @@ PROPS = {
     "C01": {"modules": ["MiniVecProof.Props.C01"],
             "cases": lambda tier, seed: general(tier, seed, "C01"),
             "owned_oracles": ["O vec-mismatch", "macro-evals", "X signal"], "owned_diffs": ["result", "contents", "panic", "crash"],
-            "partial_missing": ["refinement lemma proved for push, pop; every other operation of the property is tied to Vec and to the model by the three-way correspondence only"]},
-    "C02": {"modules": ["MiniVecProof.Props.C01", "MiniVecProof.Proofs.MemDrop"],
+            "partial_missing": ["refinement to Vec semantics proved for every history over push, pop, insert, remove, swap_remove, truncate, clear, reserve, reserve_exact, shrink_to, shrink_to_fit (C01_refines_vec_partial); every other operation of the property (resize, extend family, append, split_off, dedup, retain, iterators, clone, conversions, macro) is tied to Vec and to the model by the three-way correspondence only"]},
+    "C02": {"modules": ["MiniVecProof.Props.C02"],
             "cases": lambda tier, seed: general(tier, seed, "C02"),
             "owned_oracles": ["O ledger", "X signal"], "owned_diffs": ["own", "crash"],
-            "partial_missing": ["exactly-once destruction proved for truncate, clear, Drop (dropVec_spec, truncate_spec); other operations by correspondence + per-element ledger"]},
+            "partial_missing": ["exactly-once destruction and conservation proved for every completed history over the 11 operations of POp followed by Drop (C02_exactly_once_partial, C02_no_double_drop, C02_no_leak); iterators (Drain, Splice, DrainFilter, IntoIter) and the remaining operations by correspondence + per-element ledger"]},
     "C03": {"modules": ["MiniVecProof.Props.C01", "MiniVecProof.Proofs.MemDrop", "MiniVecProof.Props.C09"],
             "cases": lambda tier, seed: general(tier, seed, "C03", modes=("debug", "release")),
             "owned_oracles": ["O alloc", "O cap"], "owned_diffs": ["alloc", "ub", "crash"],
@@ -352,7 +352,7 @@ PROPS = {
     "C04": {"modules": ["MiniVecProof.Props.C01"],
             "cases": lambda tier, seed: [("debug", corpus("debug", "C04") + panic_sweep(tier, seed, "debug"))],
             "owned_oracles": ["O ledger", "O alloc", "X signal 11"], "owned_diffs": ["own", "contents", "result", "panic", "alloc", "ub", "crash"],
-            "partial_missing": ["proved: push/pop under arbitrary destructor-panic oracles (POp.refines quantifies over the oracle); every other callback site by the crash-point sweep"]},
+            "partial_missing": ["the theorems fix the panic oracle to never (hq); proved about unwinding: ownArgs destroys an owned argument exactly when the operation unwinds (push_spec/insert_spec stopped case) and rejected calls leave the vector untouched (C11_rejected_untouched); every user-callback panic point is decided by the exhaustive crash-point sweep of the correspondence"]},
     "C05": {"modules": ["MiniVecProof.Props.C05"],
             "cases": lambda tier, seed: [("debug", corpus("debug", "C05") + forget_cases(tier, seed, "debug"))],
             "owned_oracles": ["O ledger", "O alloc", "X signal 11"], "owned_diffs": ["own", "contents", "result", "ub", "crash"],
